@@ -1112,3 +1112,39 @@ func (f *Flow) Dump() string {
 	}
 	return sb.String()
 }
+
+// Returns lists the function's own return statements (not those of inlined literals).
+func (f *Flow) Returns() []*Atom {
+	var out []*Atom
+	for _, a := range f.FindOnce(IsReturn) {
+		if a.Lit == nil {
+			out = append(out, a)
+		}
+	}
+	return out
+}
+
+type cfgBlock = cfg.Block
+
+// loopBackEdges: edges that re-enter a loop head (range/for) from inside the loop body or post block.
+func (f *Flow) loopBackEdges() map[Edge]bool {
+	out := map[Edge]bool{}
+	for _, b := range f.G.Blocks {
+		if !b.Live {
+			continue
+		}
+		for i, s := range b.Succs {
+			if (s.Kind == cfg.KindRangeLoop || s.Kind == cfg.KindForLoop || s.Kind == cfg.KindForPost) && s.Index <= b.Index {
+				out[Edge{b, i}] = true
+			}
+			if s.Kind == cfg.KindRangeLoop || s.Kind == cfg.KindForLoop {
+				if b.Kind == cfg.KindRangeBody || b.Kind == cfg.KindForBody || b.Kind == cfg.KindForPost || b.Kind == cfg.KindIfDone || b.Kind == cfg.KindIfThen || b.Kind == cfg.KindIfElse {
+					if s.Index < b.Index {
+						out[Edge{b, i}] = true
+					}
+				}
+			}
+		}
+	}
+	return out
+}
